@@ -158,6 +158,9 @@ def obs_events(chk):
     # (predictable data: low orders only - the denominator recursion of the method loses digits as the error vanishes;
     #  measured worst deviation of a stage minimiser on the unchanged tree: 2e-9 for p <= 4, 2e-5 at p = 8)
     grid += [(N, c, p, 3) for N, p in ((16, 2), (33, 3), (64, 4), (200, 4)) for c in (False, True)]
+    # a decaying transient (products of late samples underflow), integer counts on a large offset and a tone 110 dB above
+    # the noise (variance below 1e-10 of the power): low orders, clauses conditioned on sum 1/(1-|k_i|^2)
+    grid += [(N, c, p, kd) for kd in (4, 5, 6) for N, p in ((64, 4), (160, 3)) for c in (False, True)]
     for rep in range(reps + len(grid)):
         if rep < len(grid):
             N, cplx, p_fixed, kind_fixed = grid[rep]
@@ -170,7 +173,13 @@ def obs_events(chk):
         if kind == 3 and kind_fixed is None:
             N, p = max(N, 16), min(p, 4)
         t = np.arange(N)
-        if kind == 0:
+        if kind == 4:
+            x = rng.randn(N) * np.exp(-2.5 * t)
+        elif kind == 5:
+            x = 2e6 + rng.randint(-3, 4, N).astype(float)
+        elif kind == 6:
+            x = np.cos(0.9 * t + 0.3) + 3e-6 * rng.randn(N)
+        elif kind == 0:
             x = rng.randn(N)
         elif kind == 1:
             x = np.cos(0.6 * t) + 0.5 * np.cos(1.7 * t + 1) + 0.1 * rng.randn(N)
@@ -178,7 +187,10 @@ def obs_events(chk):
             x = rng.randint(-3, 4, N).astype(float) + 0.01 * rng.randn(N)
         else:
             x = np.cos(0.9 * t + 0.3) + 1e-3 * rng.randn(N)          # one tone 60 dB above the noise
-        if cplx:
+        if cplx and kind in (4, 5, 6):
+            x = {4: x + 1j * rng.randn(N) * np.exp(-2.5 * t), 5: x + 1j * rng.randint(-3, 4, N),
+                 6: np.exp(1j * (0.9 * t + 0.3)) + 3e-6 * (rng.randn(N) + 1j * rng.randn(N))}[kind]
+        elif cplx:
             if kind == 3:
                 x = np.exp(1j * (0.9 * t + 0.3)) + 1e-3 * (rng.randn(N) + 1j * rng.randn(N))
             else:
@@ -201,7 +213,10 @@ def obs_events(chk):
             ev['maxroot_ppm'] = obs.q(np.max(np.abs(np.roots(poly))), 1e-6)
             e0 = np.mean(np.abs(x) ** 2)
             ev['rho_dev'] = obs.q(abs(rho - e0 * np.prod(1 - np.abs(k) ** 2)) / e0)
-            ev['min_dev'] = obs.q(stage_minimiser_dev(x, k))
+            cond = float(np.sum(1.0 / np.maximum(1 - np.abs(k) ** 2, 1e-300)))
+            ev['rho_rel_ratio'] = obs.q(abs(rho - e0 * np.prod(1 - np.abs(k) ** 2)) / max(abs(rho), 1e-300) / (1e-14 * cond + 1e-9), 1e-3)
+            # (the denominator recursion of the method loses digits as the error vanishes: allowed max(1e-6, 1e-13 * cond))
+            ev['min_dev'] = obs.q(stage_minimiser_dev(x, k) / max(1.0, 1e-7 * cond))
             rhos = [e0]
             nest = 0.0
             for q in range(1, p + 1):
